@@ -248,6 +248,12 @@ def err_matches(mtoks, msg):
         return 'lookup' in low and ('${%s}' % f[0]) in msg and f[4] in msg
     if k == 'ERawString':
         return 'raw_string' in low and f[0] in msg
+    if k == 'EJsonKey':
+        return 'json key' in low and f[0] in msg
+    if k == 'EJsonValueList':
+        return 'json' in low
+    if k == 'ETagged':
+        return 'tagged' in low
     if k == 'EKeyValueList':
         return 'valuelist' in low
     if k == 'ERenderNonMapping':
